@@ -15,22 +15,26 @@ G = {"quick": 8, "thorough": 10}
 TASKSETS = [
     ("A", "B"), ("A", "R:resend"), ("A", "R:testreq"), ("A", "H"), ("A", "R:gap"), ("R:resend", "H"), ("A", "B", "R:resend"), ("A", "B", "H"),
     ("A", "R:logon"), ("A", "R:resend2"), ("B", "R:appmsg"),
+    # initiator whose application sends its first Logon while another task sends Logout / an application message
+    ("I:logon", "I:logout"), ("I:logon", "A"), ("I:logon", "I:logout", "A"),
 ]
 
 
 def RULE(tier):
     return (
-        "One real endpoint (acceptor) whose suspension points are owned by the harness: every drain() under back-pressure (pause -> "
+        "One real endpoint (acceptor; an initiator for the first-Logon task sets) whose suspension points are owned by the harness: every drain() under back-pressure (pause -> "
         "drain blocks; resume wakes ALL waiters FIFO in one sweep, as asyncio does) and every awaited application hook "
         "(should_replay, on_state_change, on_message, on_logon) is a gate opened by the scheduler. Task sets of 2-3 among: "
         "application task A / B sending 2 messages each, the real reader task processing an injected ResendRequest over a "
         "pre-filled journal (also two requests back to back), a TestRequest, a frame above the expected number, an application "
-        "message, the first Logon, and the heartbeat path (send_test_req). EXHAUSTIVE depth-first enumeration of all choice "
+        "message, the first Logon, the heartbeat path (send_test_req), and an initiator application sending its first Logon while "
+        "other tasks send Logout / application messages. EXHAUSTIVE depth-first enumeration of all choice "
         f"sequences (start a task / open gate k / pause / resume) up to {G[tier]} choices, each schedule re-executed from scratch and then "
         "run to completion, plus Hypothesis-drawn longer schedules. Oracle on the bytes written, in wire order: new frames (no "
         "PossDupFlag, not SequenceReset) carry distinct, strictly increasing MsgSeqNums; a PossDup frame repeats a number sent "
         "before with the same body; no task raised anything but FIXConnectionError (in particular no DuplicateSeqNoError); every "
-        "new frame is journaled under its number byte for byte; live and stored next_num_out = highest new number + 1. "
+        "new frame is journaled under its number byte for byte; live and stored next_num_out = highest new number + 1; a served "
+        "ResendRequest retransmits every replayable application message journaled before it, whatever ran in between. "
         "Non-trivial = schedule in which two tasks were suspended at the same time; distinct by (task set, choice sequence)."
     )
 
@@ -43,11 +47,17 @@ ASSUMPTIONS = [
 
 class Sched:
     def __init__(self, tasks, start="active"):
-        self.b = Bench("acceptor", start, next_out=1)
+        if any(t.startswith("I:") for t in tasks):
+            from checks.c11 import make_bench
+
+            self.b = make_bench("init-connected")  # initiator, transport up, nothing sent yet
+        else:
+            self.b = Bench("acceptor", start, next_out=1)
         self.ep = self.b.ep
         self.w = self.b.w
-        self.writer = self.b.link.writers["s"]
-        self.pending = []  # [label, future]
+        self.writer = self.b.link.writers[self.b.side]
+        self.pending = []
+        self.expected_replay = None  # [label, future]
         self.tasks = {}
         self.names = list(tasks)
         self.unstarted = list(tasks)
@@ -103,9 +113,29 @@ class Sched:
             self.tasks[name] = self.w.loop.create_task(self._app(name))
         elif name == "H":
             self.tasks[name] = self.w.loop.create_task(self._hb())
+        elif name in ("I:logon", "I:logout"):
+            msg = FIXMessage(FMsg.LOGON, {98: 0, 108: 30}) if name == "I:logon" else FIXMessage(FMsg.LOGOUT, {58: "bye"})
+
+            async def one(msg=msg, name=name):
+                try:
+                    await self.ep.send_msg(msg)
+                except FIXConnectionError:
+                    pass
+                except BaseException as e:  # noqa
+                    self.errors.append((name, type(e).__name__, str(e)))
+            self.tasks[name] = self.w.loop.create_task(one())
         else:
             kind = name.split(":")[1]
             E = ep._session.next_num_in
+            if kind in ("resend", "resend2"):
+                # what an open-ended request over everything sent so far must retransmit (C06's completeness clause,
+                # here under interleaving): replayable application messages journaled up to now
+                exp = set()
+                for raw in ep._journaler.recover_messages(ep._session, MessageDirection.OUTBOUND, 1, 2**62):
+                    p = ref_parse(raw)
+                    if ref_get(p, 35) == "D" and "NOREPLAY" not in (ref_get(p, 58) or ""):
+                        exp.add(int(ref_get(p, 34)))
+                self.expected_replay = exp
             if kind == "resend":
                 fr = b.frame("2", E, [(7, 1), (16, 0)])
             elif kind == "resend2":
@@ -120,7 +150,7 @@ class Sched:
                 fr = b.frame("A", E, [(98, 0), (108, 30)])
             else:
                 raise ValueError(kind)
-            b.link.readers["s"].feed(fr)
+            b.link.readers[b.side].feed(fr)
             self.tasks[name] = None  # runs inside the real reader task
         self.w.idle()
         self._track()
@@ -184,7 +214,7 @@ class Sched:
 
 
 def execute(acc, tasks, schedule, origin, judge=True):
-    start = "connected" if "R:logon" in tasks else "active"
+    start = "connected" if ("R:logon" in tasks or any(t.startswith("I:") for t in tasks)) else "active"
     s = Sched(tasks, start)
     case = {"tasks": list(tasks), "schedule": [list(c) for c in schedule]}
 
@@ -242,6 +272,15 @@ def execute(acc, tasks, schedule, origin, judge=True):
                 row = e
             if row != fr:
                 bad("not-journaled-under-its-number", f"new frame {n}: journal has {row!r:.160}, wire had {fr!r:.160}")
+        if s.expected_replay is not None and done:
+            retr = set()
+            for fr in frames:
+                p = ref_parse(fr)
+                if ref_get(p, 43) == "Y" and ref_get(p, 35) != "4":
+                    retr.add(int(ref_get(p, 34)))
+            missing = s.expected_replay - retr
+            if missing:
+                bad("replay-incomplete", f"replayable application message(s) {sorted(missing)} journaled before the ResendRequest were not retransmitted (retransmitted: {sorted(retr)})")
         live = s.ep._session.next_num_out
         stored = s.ep._journaler.create_or_load(s.ep._session.target_comp_id, s.ep._session.sender_comp_id).next_num_out
         if sent and (live != last_new + 1 or stored != last_new + 1):
@@ -285,7 +324,7 @@ def hyp_shard(acc, n, seed, maxlen):
 
     def one(x):
         tasks, picks = x
-        start = "connected" if "R:logon" in tasks else "active"
+        start = "connected" if ("R:logon" in tasks or any(t.startswith("I:") for t in tasks)) else "active"
         s = Sched(tasks, start)
         schedule = []
         try:
